@@ -10,6 +10,7 @@ import (
 	_ "unsafe" // go:linkname
 
 	"github.com/ja7ad/otp"
+	"github.com/ja7ad/otp/verifharness/ev"
 	"github.com/ja7ad/otp/verifharness/ref"
 )
 
@@ -151,6 +152,7 @@ func fuseArm() {
 }
 
 func addSuspect(c any) {
+	ev.Impatient.Store(true)
 	suspectMu.Lock()
 	if len(suspects) < 64 {
 		suspects = append(suspects, c)
